@@ -18,6 +18,7 @@ v ↔ λ with its endpoint singularity that turns `quad(efun01, vmin, v2)` into 
 integral (a hypothesis of `sedov_eval_of_substitution_partial`).
 -/
 import EPV.Lemmas.SedovFields
+import EPV.Lemmas.SedovSingular
 import EPV.Spec.Sedov
 
 set_option linter.all false
@@ -185,6 +186,63 @@ theorem sedov_mass_iff_partial (p : SedovShock.P) (k : ℕ) (A : Admissible p k)
   · intro h
     rw [h]
     field_simp
+
+/-! ### The singular solution type, in full
+
+For the exactly singular density exponent (v2 = vstar, i.e. (k+2-ω)(γ+1) = 2((γ-1)k+2); k = 2, 3 —
+in planar geometry the singular ω equals the geometry and is excluded) the similarity functions
+are the closed forms f = λ, g = λ^(k-2), h = λ^k of `sedov_funcs_singular` and `alpha` is the closed
+form of sedov.py:147-150.  Then BOTH halves of C11 are proved with no remaining hypothesis.
+(The code uses these closed forms on the whole band |v2 - vstar| ≤ 1e-4, where they are
+approximations; and at the exactly singular ω the real constructor raises ZeroDivisionError —
+finding, Props/C20/FindingSedov.lean.) -/
+
+/-- the coded closed form of alpha in the singular case -/
+def alphaSingular (k : ℕ) (γ : ℝ) : ℝ :=
+  (γ + 1) / (γ - 1) * 2 ^ k / (k * ((γ - 1) * k + 2) ^ 2) * (if k = 1 then 1 else Real.pi)
+
+theorem sedov_energy_singular (p : SedovShock.P) (k : ℕ) (A : Admissible p k) (hk : k = 2 ∨ k = 3)
+    (hsing : 4 / (((k : ℝ) + 2 - p.omega) * (p.gamma + 1)) = 2 / ((p.gamma - 1) * k + 2))
+    (hα : p.alpha = alphaSingular k p.gamma) (t : ℝ) (ht : 0 < t) :
+    EnergyConserved k p.gamma p.eblast (density p (gS k) t) (velocity p (fS k) t) (pressure p (hS k) t)
+      (SedovShock.r2 p t) := by
+  obtain ⟨hI1, hI2⟩ := singular_integrable k hk
+  have hx : (k : ℝ) + 2 - p.omega ≠ 0 := by have := A.xg2_pos; rw [A.geo] at this; exact this.ne'
+  have hcl := (singular_closed_forms k A.hk p.gamma p.omega A.gamma hx hsing).2.2
+  exact sedov_energy p k A (fS k) (gS k) (hS k) hI1 hI2 (by rw [hα, hcl]; rfl) t ht
+
+theorem sedov_mass_singular (p : SedovShock.P) (k : ℕ) (A : Admissible p k) (hk : k = 2 ∨ k = 3)
+    (hsing : 4 / (((k : ℝ) + 2 - p.omega) * (p.gamma + 1)) = 2 / ((p.gamma - 1) * k + 2))
+    (t : ℝ) (ht : 0 < t) :
+    MassConserved k p.rho0 p.omega (density p (gS k) t) (SedovShock.r2 p t) := by
+  rw [sedov_mass_iff_partial p k A (gS k) t ht, singular_mass_integral k hk]
+  have hγ := A.gamma
+  have hγ1 : p.gamma - 1 ≠ 0 := by linarith
+  have hγ2 : p.gamma + 1 ≠ 0 := by linarith
+  have hk1 : (k : ℝ) - 1 ≠ 0 := by rcases hk with rfl | rfl <;> norm_num
+  have hkpos : (0 : ℝ) < k := by rcases hk with rfl | rfl <;> norm_num
+  have hx : (k : ℝ) + 2 - p.omega ≠ 0 := by have := A.xg2_pos; rw [A.geo] at this; exact this.ne'
+  have hd : (p.gamma - 1) * k + 2 ≠ 0 := by
+    have : 0 < (p.gamma - 1) * k := mul_pos (by linarith) hkpos
+    linarith
+  -- v2 = vstar  ⟹  k - ω = 2 (k-1)(γ-1)/(γ+1)
+  rw [div_eq_div_iff (mul_ne_zero hx hγ2) hd] at hsing
+  have hkω : (k : ℝ) - p.omega = 2 * ((k : ℝ) - 1) * (p.gamma - 1) / (p.gamma + 1) := by
+    field_simp; linarith
+  rw [hkω]
+  field_simp
+
+/-- non-vacuity: γ = 7/5, k = 3, ω = 7/3 is exactly singular and admissible -/
+example : ∃ (p : SedovShock.P) (k : ℕ), Admissible p k ∧ (k = 2 ∨ k = 3)
+    ∧ 4 / (((k : ℝ) + 2 - p.omega) * (p.gamma + 1)) = 2 / ((p.gamma - 1) * k + 2)
+    ∧ p.alpha = alphaSingular k p.gamma := by
+  refine ⟨⟨alphaSingular 3 (7/5), 851072/1000000, 7/5, 3, 7/3, 1⟩, 3, ?_, Or.inr rfl, by norm_num, rfl⟩
+  refine ⟨Or.inr (Or.inr rfl), by norm_num, by norm_num, by norm_num, by norm_num, by norm_num, by norm_num, ?_⟩
+  show 0 < alphaSingular 3 (7/5)
+  unfold alphaSingular
+  have := Real.pi_pos
+  norm_num
+  positivity
 
 end
 
